@@ -299,6 +299,9 @@ class C07(Spec):
                 keys += rng.choice([[32], [32, ord("h")], [32, ord("h"), ord("l")], [ord("j"), 32, ord("h")], [32, ord("j"), ord("h")], [32, 32, ord("h"), ord("h")]])
             keys += [257] + [ord(rng.choice("jjjkhl")) for _ in range(rng.randint(2, 8))]
             cases.append(ui_case(w, keys, preload=rng.choice((1, 2, 3)), feeds=feeds))
+            # the cursor wanders while a load is held: the "Loading" markers depend on where the window ends relative to it
+            keys = [ord(rng.choice("jk")) for _ in range(rng.randint(0, 4))] + [256] + [ord(rng.choice("kkjjg")) for _ in range(rng.randint(2, 7))] + [257] + [ord(rng.choice("jk")) for _ in range(3)]
+            cases.append(ui_case(w, keys, preload=rng.choice((0, 1, 2, 3)), height=rng.choice((20, 8)), feeds=feeds))
         for _ in range(250 if tier == "quick" else 15000):
             w = thread_world(rng)
             keys = rand_keys(rng, rng.randint(5, 60))
